@@ -934,6 +934,18 @@ fn c01(tier: Tier, seed: u64) -> i32 {
 		let case = gen_conc(&mut Src::new(bytes), &cfg);
 		eval_conc_case(&e, &case, want)
 	});
+	// one thread alone: a checked collection must not be extendable through safe
+	// post-construction accessors (it could then contain a lock twice and a single
+	// thread would spin on a lock it holds itself): decided at compile time
+	match crate::tyeng::Toolchain::locate() {
+		Ok(tc) => {
+			let pairs = crate::tyeng::families_mutation_after_check();
+			let items: Vec<usize> = (0..pairs.len()).collect();
+			ctx.enumerate("types-mutation-after-check-is-rejected", items, |i, want| types_report(&tc, &pairs[*i], want));
+			tc.cleanup();
+		}
+		Err(e) => ctx.health_errors.push(format!("TYPES engine: {e}")),
+	}
 	// all schedules of tiny programs
 	let tcfg = tiny_conc_cfg();
 	let cap = tier.pick(4_000, 60_000) as usize;
@@ -1312,6 +1324,7 @@ fn types_report(tc: &crate::tyeng::Toolchain, p: &crate::tyeng::Pair, want: bool
 	let prop: &'static str = match p.prop.as_str() {
 		"C14" => "C14",
 		"C15" => "C15",
+		"C01" => "C01",
 		_ => "C07",
 	};
 	match &out {
